@@ -197,7 +197,17 @@ def run(ctx):
                 order.append("scheduler")
             elif isinstance(v, ast.Name):
                 defs = [n for n in ast.walk(gro) if isinstance(n, ast.Assign) and src(n.targets[0]) == v.id]
-                if defs and "self.parent_job.get_export_options()" in src(defs[0].value) and "if self.parent_job else {}" in src(defs[0].value):
+                one_expr = bool(defs) and "self.parent_job.get_export_options()" in src(defs[0].value) and "if self.parent_job else {}" in src(defs[0].value)
+                # or: `x = {}` followed by `if self.parent_job: x = self.parent_job.get_export_options()`
+                two_step = (
+                    len(defs) == 2
+                    and sorted(src(d.value) for d in defs) == sorted(["{}", "self.parent_job.get_export_options()"])
+                    and any(
+                        isinstance(i, ast.If) and src(i.test) == "self.parent_job" and any(d in i.body for d in defs if src(d.value) != "{}")
+                        for i in ast.walk(gro)
+                    )
+                )
+                if one_expr or two_step:
                     order.append("exported")
                 else:
                     order.append(f"?{t}")
@@ -321,7 +331,9 @@ def run(ctx):
     ok = "self.evaluate(job.get_raw_options(), parent_job=parent_job).then(options_then)" in t.replace("\n", " ").replace("  ", "")
     ok = ok or ("job.get_raw_options()" in t and ".then(options_then)" in t)
     r4.check(ok, f"{m.rel}:Scheduler._evaluate_apply:evaluate-options", "raw options are not evaluated (expressions resolved) and handed to options_then", m.rel, ea.lineno)
-    r4.check("job.eval_options = job_options" in src(ot), f"{m.rel}:Scheduler._evaluate_apply.options_then:assign", "the evaluated options are not stored on the job", m.rel, ot.lineno)
+    p0 = ot.args.args[0].arg if ot.args.args else None
+    stores = any(isinstance(a, ast.Assign) and any(src(t_) == "job.eval_options" for t_ in a.targets) and isinstance(a.value, ast.Name) and a.value.id == p0 for a in ast.walk(ot))
+    r4.check(stores, f"{m.rel}:Scheduler._evaluate_apply.options_then:assign", "the evaluated options are not stored on the job", m.rel, ot.lineno)
     ex = [c for c in calls_in(ea) if call_name(c) == "self._exec_job"]
     ok = len(ex) == 1 and m.enclosing_qual(ex[0]) == "Scheduler._evaluate_apply.args_then" and "Promise.all([args_promise, default_kwargs_promise]).then(args_then)" in t
     dk = [n for n in ast.walk(ea) if isinstance(n, (ast.Assign, ast.AnnAssign)) and src(n.targets[0] if isinstance(n, ast.Assign) else n.target) == "default_kwargs_promise"]
